@@ -16,10 +16,10 @@ import re
 from .. import common
 from ..common import Result, Violation
 
-D = ["a", "a b", "b a", "#a", "#a b", "2 a", "_ a", "*v", "*#v", "*v a", "#a *#v", "... a"]
+D = ["a", "a b", "b a", "#a", "#a b", "2 a", "_ a", "*v", "*#v", "*v a", "#a *#v", "... a", "a *v b"]
 SYM = ["a+1", "a*b", "a-1 b"]
-S = [(), (1,), (2,), (3,), (1, 2), (2, 2), (2, 3), (3, 2), (1, 1, 2)]
-D_Q3 = ["a", "#a b", "b a", "*v a", "*#v", "2 a"]
+S = [(), (1,), (2,), (3,), (1, 2), (2, 2), (2, 3), (3, 2), (1, 1, 2), (0,), (0, 2)]
+D_Q3 = ["a", "#a b", "b a", "*v a", "*#v", "a *v b"]
 FAM_VAR = ["*v", "*#v", "*v a", "#a *#v"]
 S_VAR = [(), (1,), (2,), (1, 2), (2, 2), (3, 2)]
 FAM_SINGLE = ["a", "#a", "a b", "b a"]
@@ -60,9 +60,9 @@ def legal(sig, ret):
 NEW = [("typeguard", "new"), ("beartype", "new")]
 DC = [("typeguard", "dataclass"), ("beartype", "dataclass")]
 OLD = [("typeguard", "old"), ("beartype", "old")]
-S5 = [(), (2,), (3,), (1, 2), (2, 2)]
-S7 = [(), (1,), (2,), (3,), (1, 2), (2, 2), (2, 3)]
-S4 = [(2,), (3,), (1, 2), (2, 2)]
+S5 = [(), (2,), (3,), (1, 2), (2, 2), (0,)]
+S7 = [(), (1,), (2,), (3,), (1, 2), (2, 2), (2, 3), (0,)]
+S4 = [(2,), (3,), (1, 2), (2, 2), (0,)]
 
 
 def signatures(tier):
